@@ -20,7 +20,7 @@ inductive Fp
   | hash (n : String)
   | cls (n : String)
   | isWhere
-  | pseudo (n : String)
+  | pseudo (n : String) (hasArgs : Bool)
   | other
   deriving DecidableEq, Repr
 
@@ -28,7 +28,7 @@ def fp : Sub → Fp
   | .hash n => .hash n
   | .cls n => .cls n
   | .pseudoList k _ _ => if k == "is" || k == "where" then .isWhere else .other
-  | .pseudo n _ _ _ => .pseudo n
+  | .pseudo n h _ _ => .pseudo n h
   | _ => .other
 
 def print (cx : Complex) : List (List Fp) := cx.map (fun c => c.subs.map fp)
@@ -65,8 +65,10 @@ def specOf (p : List (List Fp)) : Specificity :=
   ⟨(p.flatten.filter (fun f => match f with | .hash _ => true | _ => false)).length,
    (p.flatten.filter (fun f => match f with | .cls _ => true | _ => false)).length, 0⟩
 
-/-- the user agent of the example does not know the pseudo-class `:-x-foo` -/
-def unknownPseudo (p : List (List Fp)) : Bool := p.flatten.contains (.pseudo "-x-foo")
+/-- the user agent of the example does not know the pseudo-class `:-x-foo`, and it rejects a pseudo-class that is not
+functional but comes with an (empty) argument list, such as `:hover()` -/
+def unknownPseudo (p : List (List Fp)) : Bool :=
+  p.flatten.any (fun f => match f with | .pseudo n hasArgs => n == "-x-foo" || hasArgs | _ => false)
 
 def addSpec (x y : Specificity) : Specificity := ⟨x.a + y.a, x.b + y.b, x.c + y.c⟩
 
@@ -101,18 +103,25 @@ theorem hasIsWhere_of_dead {c : Complex} (h : containsDeadSelectors c = true) : 
 theorem known_of_safe {c : Complex} (h : c.all compoundIsSafe = true) : unknownPseudo (print c) = false := by
   rw [Bool.eq_false_iff]
   intro hu
-  simp only [unknownPseudo, print, List.contains_iff_mem, List.mem_flatten, List.mem_map] at hu
-  obtain ⟨l, ⟨cp, hcp, rfl⟩, hm⟩ := hu
+  simp only [unknownPseudo, print, List.any_eq_true, List.mem_flatten, List.mem_map] at hu
+  obtain ⟨f, ⟨l, ⟨cp, hcp, rfl⟩, hm⟩, hf⟩ := hu
   rw [List.mem_map] at hm
-  obtain ⟨s, hs, hf⟩ := hm
+  obtain ⟨s, hs, rfl⟩ := hm
   rw [List.all_eq_true] at h
   have hsafe := h cp hcp
   simp only [compoundIsSafe, Bool.and_eq_true, List.all_eq_true] at hsafe
   have := hsafe.2 s hs
-  cases s <;> simp [fp] at hf
-  · subst hf
-    simp [subIsSafe] at this
-  · split at hf <;> simp at hf
+  cases s with
+  | pseudo n ha a e =>
+    simp only [fp, Bool.or_eq_true, beq_iff_eq] at hf
+    simp only [subIsSafe, Bool.and_eq_true, Bool.not_eq_true', Bool.or_eq_true, beq_iff_eq] at this
+    rcases hf with hf | hf
+    · subst hf; simp at this
+    · rw [hf] at this; simp at this
+  | pseudoList k i e => simp [subIsSafe] at this
+  | hash n => simp [fp] at hf
+  | cls n => simp [fp] at hf
+  | attr t m => simp [fp] at hf
 
 theorem reading_sound : reading.Sound where
   sel_eq := by
